@@ -65,6 +65,7 @@ type Exec struct {
 	safety   bool
 	quiet    int // >0: obligations suppressed (inlined / pure evaluation)
 	termMode bool
+	noFacts  int // >0: inside a quantifier / definition body: no fresh constants or facts
 	depth    int
 	names    map[string]int
 	globals  map[types.Object]Term
@@ -1061,6 +1062,12 @@ func (x *Exec) execLoopCommon(node ast.Node, bodyPos token.Pos, env *Env, label 
 	if x.quiet == 0 && g.S != "true" {
 		o := x.W.Oblige(x.oblName(tag+"/cover:body", ""), "cover", bodyEnv.pc, False)
 		o.Expect = "sat"
+	}
+	if lc != nil {
+		hsc := x.scopeAt(bodyEnv, bodyPos)
+		for i, c := range lc.Hints {
+			x.assert(bodyEnv, tag+"/hint:"+clauseName(c, i), "", hsc.EvalBool(c.Expr))
+		}
 	}
 	out := body(bodyEnv)
 	conts := append([]*Env{out}, fr.continues...)
